@@ -40,6 +40,7 @@ def cases(tier, seed, rigid):
             ("dagger", F([G.DAGGER, a]), [G.DAGGER, F(a)], ("dagger", ia)),
             ("slice", [G.THEN, F([G.SLICE, a, [], [i]]), F([G.SLICE, a, [i], []])], F(a), None),
             ("dom_cod", F(a), None, ("dom_cod", ia)),
+            ("sum", F(a), None, ("sum", a, [G.THEN, a, [G.ID, ia[1]]], obs, ars)),
         ]
         out.append((obs, ars, laws))
     return out
@@ -109,6 +110,18 @@ def oracle(ci, cls, name, lhs, rhs, extra, obs, ars, outcome, rng):
     if extra and extra[0] == "id":
         want = cls.Id(functor(cls.ty(extra[1])))
         return (None if L == want else "F(Id(t)) != Id(F(t))"), False
+    if extra and extra[0] == "sum":
+        # F(a + a' + 0) == F(a) + F(a') + 0 : the image of a formal sum is the sum of the images
+        from discopy import monoidal
+        da, db = ci.interp(cls, extra[1]), ci.interp(cls, extra[2])
+        s = monoidal.Sum([da, db], da.dom, da.cod)
+        want = monoidal.Sum([functor(da), functor(db)], functor(da.dom), functor(da.cod))
+        empty = monoidal.Sum([], da.dom, da.cod)
+        if functor(s) != want:
+            return "F(a + b) != F(a) + F(b)", False
+        if functor(empty) != monoidal.Sum([], functor(da.dom), functor(da.cod)):
+            return "F(empty sum) is not the empty sum on the image types", False
+        return None, False
     if extra and extra[0] == "dom_cod":
         info = extra[1]
         if L.dom != functor(cls.ty(info[0])) or L.cod != functor(cls.ty(info[1])):
